@@ -582,9 +582,17 @@ def run_c17(tier, seed, replay=None):
             for inst in insts:
                 jobs.append(dict(kind=kind, inst=inst, variant=('tracked', 'std')))
         # larger scopes: the same seeded random histories (no closure) under every hasher of the pairs
-        big = [ro for ro in RANDOM_ONLY[tier] if max(ro['cfg'].values()) >= 16]
-        for ro in (big[::2] if tier == 'quick' else big):
-            jobs.append(dict(kind=ro['kind'], inst=ro, variant=('tracked', 'std'), random_only=True))
+        # (the pair traces are kept on disk until compared: in the thorough tier only the instances with sizes <= 48 and
+        # shortened histories, or the work directory grows past 100 GB)
+        big = [ro for ro in RANDOM_ONLY[tier] if 16 <= max(v for k, v in ro['cfg'].items() if k != 'samples') <= 48]
+        if tier != 'quick':
+            big = [dict(ro, random=(min(ro['random'][0], 12), min(ro['random'][1], 2000))) for ro in big]
+        per_kind = {}
+        for ro in big:
+            per_kind.setdefault(ro['kind'], []).append(ro)
+        for kind_, ros in per_kind.items():
+            for ro in ros[:2 if tier == 'quick' else 3]:
+                jobs.append(dict(kind=ro['kind'], inst=ro, variant=('tracked', 'std'), random_only=True))
         runs = sorted({(h, 0) for p in C17_PAIRS for h in p[:2]} | {(p[1], p[2]) for p in C17_PAIRS})
 
         def gen(job):
